@@ -1,6 +1,6 @@
 """vlib.py — shared machinery of ./check: builds (Coq, extraction, C++ harnesses), the
 correspondence runner, verdicts, known findings, evidence and replay files."""
-import os, sys, re, json, time, hashlib, subprocess, random, fcntl, shutil, glob
+import time, os, sys, re, json, time, hashlib, subprocess, random, fcntl, shutil, glob
 
 VERIF = os.path.dirname(os.path.dirname(os.path.abspath(__file__)))
 REPO = os.environ.get("VERIF_REPO", "/repo")
@@ -300,6 +300,18 @@ def run_cases(binary, cases, timeout=600, env=None):
     return lines, rc, err
 
 
+def run_case_retry(binary, case, timeout=600, env=None, tries=3):
+    """one case of a real-socket harness; an environment problem of the harness itself (no free port, listen failed)
+    is retried, it says nothing about the library"""
+    out, rc, err = [], 0, ""
+    for _ in range(tries):
+        out, rc, err = run_cases(binary, [case], timeout=timeout, env=env)
+        if not (out and out[0].startswith("HARNESS-ERROR")):
+            break
+        time.sleep(0.5)
+    return out, rc, err
+
+
 def run_cases_resilient(binary, cases, timeout=600, env=None):
     """like run_cases, but when the process dies on a case, record the crash for that case and
     continue with the rest (each crash costs one restart)."""
@@ -319,7 +331,7 @@ def run_cases_resilient(binary, cases, timeout=600, env=None):
         results.append("%s %s" % (kind, detail))
         crashes.append((i + got, err[-3000:] if err else ""))
         i = i + got + 1
-        if len(crashes) > 200:
+        if len(crashes) > max(200, len(cases) // 2 + 50):
             results.extend(["SKIPPED too-many-crashes"] * (len(cases) - len(results)))
             break
     return results, crashes
